@@ -1,5 +1,7 @@
 E1_NOTE = ('trusted base: the reference interpreter vf/ref.py (boring list code) and the observation code vf/observe.py; '
            'bounded by program depth and the stated alphabet; prefetch stages inside these programs run under the OS schedule')
+E2_NOTE = ('trusted base: the scheduler and the queue/threading/executor models in vf/sched.py (process pools are in-process models with a real pickle/dill boundary), '
+           'the visibility analysis of racy closure cells; granularity = visible operations (mode P/B) or source lines (mode L); sequential consistency')
 CHECKS = {
     'C01': dict(engine='E1 seqmc', design_ref='DESIGN.md 3.2, 4/C01',
                 technique='explicit-state enumeration of all combinator programs to a depth bound, each executed on the real library and compared with a reference interpreter',
@@ -13,8 +15,26 @@ CHECKS = {
                 technique='explicit-state enumeration of all combinator programs to a depth bound; in every state keys(), items() (twice), ds[key] for all present and a set of absent keys against the reference',
                 text='same program space as C01; the invariant is key/example alignment in keys(), items() and key lookup, and a lookup error for every absent key (including keys removed by a slice/filter below)',
                 note=E1_NOTE),
+    'C04': dict(engine='E2 schedmc', design_ref='DESIGN.md 3.3, 4/C04',
+                technique='stateless model checking of the real parallel_utils code under a controlled scheduler: all thread schedules of visible operations (sleep-set reduction), plus all line-level schedules up to a preemption bound',
+                text='for every configuration (prefetch / parallel map x n x workers x buffer x 5 backends x values/items x second iteration after a full or an aborted one) every schedule is executed and the delivered sequence is compared with the sequential pipeline; len() compared statically',
+                note=E2_NOTE),
+    'C05': dict(engine='E2 schedmc', design_ref='DESIGN.md 3.3, 4/C05',
+                technique='stateless model checking under a controlled scheduler: all schedules x every consumer stop point (close / drop after k, exhaustion, error at every position); deadlock, leaked-thread and event-order oracles on every execution',
+                text='no deadlock, no live thread at the end, no pull/start/end event after control returned, nothing pending when the executor shuts down after an early stop; buffer sizes from 1',
+                note=E2_NOTE),
+    'C06': dict(engine='E2 schedmc', design_ref='DESIGN.md 3.3, 4/C06',
+                technique='stateless model checking under a controlled scheduler: all schedules x all subsets of failing positions x exception types x catch settings, compared with the sequential semantics',
+                text='the consumer receives exactly the reference prefix followed by the injected exception; with catch_filter_exception exactly the selected failures are dropped; source errors and function errors, single-thread and pool paths, thread and process-pool models',
+                note=E2_NOTE),
+    'C07': dict(engine='E2 schedmc', design_ref='DESIGN.md 3.3, 4/C07',
+                technique='stateless model checking under a controlled scheduler with pull/start/deliver log events as ordered scheduling points; the read-ahead invariant is evaluated at every prefix of every execution',
+                text='pulled-delivered <= buffer_size+2 and started-delivered <= buffer_size at every moment of every explored schedule (all schedules for the small configurations, all schedules within a preemption bound for n = b+3, b+4 with 2 workers); maxima must not grow with n',
+                note=E2_NOTE),
 }
 ENGINES = [
+    {'name': 'E2 schedmc', 'path': 'vf/schedmc.py', 'serves_properties': ['C04', 'C05', 'C06', 'C07'],
+     'kind_free_text': 'stateless model checker for the real lazy_dataset.parallel_utils code: baton scheduler over real threads, modelled queue/threading/executors injected into the module namespace, sys.monitoring LINE events on racy closure cells; DFS over choice lists with sleep sets or a preemption bound; every failing schedule is replayed twice'},
     {'name': 'E1 seqmc', 'path': 'vf/seqmc.py', 'serves_properties': ['C01', 'C02', 'C03'],
      'kind_free_text': 'explicit-state search over pipeline programs: complete tree to a depth bound on real Dataset objects, invariant = agreement of the full observation with a pure-Python reference interpreter (vf/ref.py)'},
 ]
